@@ -157,6 +157,15 @@ CHECKS = {
    design_ref='DESIGN.md section 6 (C11)',
    note='Trusted: TLC, recorder provenance table. Three known findings (dot ambiguity, fs path cleaning, fs legacy name) matched by predicates over the recorded history; any other cross-read fails the check.',
    technique='TLA+ spec + TLC injectivity enumeration + trace validation with value provenance on four real backends'),
+ 'C12': dict(
+   category='fault_enumeration',
+   text='FsSave.tla is a directory of files under primitive operations with a Crash action before every operation and torn writes (model only); the operation sequence of a save is not '
+        'assumed but recorded from the real code with strace and fed to the model, so TLC enumerates every crash point of what the code really does; the real saving process is then killed '
+        '(strace fault injection, SIGKILL on entry to the call) at every store-touching system call of the save, for several consecutive old/new state pairs; a fresh process loads the session, '
+        'classifies it old / new / corrupt / missing, serves one more request (must continue, not restart) and checks the neighbouring session\'s record; model prediction and real outcome must agree.',
+   design_ref='DESIGN.md section 6 (C12)',
+   note='Trusted: strace injection, the single-threaded saver, the classification by projection of the loaded state. A process death cannot tear one write(2): torn writes are model-only.',
+   technique='TLA+ crash model over a strace-recorded operation sequence + real SIGKILL injection at every recorded crash point'),
 }
 
 NOT_YET = 'check not built yet in this round (planned: DESIGN.md section 6); not claimed until its machinery exists'
